@@ -1350,7 +1350,7 @@ func main() {
 	run.Set("f5_state_lists_moved", len(statesMove))
 	run.Set("f5_move_programs", len(movePrograms))
 	run.Set("rule", "F1: every program of <= max_program_symbols symbols over the 72-symbol alphabet (one opcode per distinct op implementation; JUMP/JUMPIF with every byte target 0..len+1) x initial stacks x gas limits: <=2 symbols on every stack of 0-3 items over {'',01,32 bytes} (thorough: plus 02; 85 stacks) under every limit 0..40, need-1, need, need+1, 5000 and MaxGasAmount; 3 symbols on 6 stacks (thorough: 40 stacks plus a 0..40 sweep on 6) under need-1, need, need+1, 0, 1, 40 (thorough: MaxGasAmount); (thorough) 4 symbols on 4 stacks under need-1, need. F2: CHECKPREDICATE (alone, followed by an 80-byte push, thorough: preceded/followed by every symbol) over every child program of <= 2 symbols x child limits {inherit,1,need-1,need,need+1,2000} x 9 lower-stack configurations incl. grandchild triples. F3: push^a refund^b sequences (a,b <= 3, thorough 4), the same closed into loops, and a loop that rebuilds a CHECKPREDICATE triple every iteration. F4: CHECKPREDICATE (alone, followed by an 80-byte push) over every child program of <= 3 (thorough: 4) symbols over {TOALTSTACK, FROMALTSTACK, 1, DROP, DUP, VERIFY, PROGRAM, ASSET, CAT} (thorough: <= 3 symbols also over 0, FAIL, SIZE, SWAP, ENTRYID, DATA_1) x 0..2 moved items of 1, 32, 120 bytes (thorough: also 0 and 200) x every child limit 1..need+1 (capped at f4_max_child_limit), inherit and 2000 - monitored run for each, the parent's limit sweep at both ends of the range and on every 8th child limit; the same rounds (item, 1, child, limit, CHECKPREDICATE, DROP) written three times into one program and closed into a loop. F5 (initial alt stack = Context.StateData of the spent output): every list of 0..2 (thorough: 0..3) state items of 0, 1, 200 (thorough: also 32) bytes x every program of <= 2 symbols over the full alphabet (all jump targets) on the empty argument stack (thorough: also [01], [32 bytes]); every list of 0..3 such state items x every program of <= 3 (thorough: 4) symbols over {FROMALTSTACK, TOALTSTACK, DROP, DUP, CAT, SWAP, 1, VERIFY, SIZE, 2DROP} x argument stacks {[], [01]}; limits: cost of the initial stacks -1 (must fail), that cost, +1, 5000, need-1, need, need+1, 0, 1, 40 - and every one of these limits that is >= cost-1 is also given to vm.Verify itself, whose own result must satisfy 0 <= gasLeft <= limit, fail with the run limit below the cost of the initial stacks, and equal the monitored run (class, gas left). A case is a distinct (program, state data, initial stack); its base run is monitored instruction by instruction under limit 5000 (programs of >= 3 symbols: 600 first, 5000 unless the run is a loop), then need is located and the listed limits are run. evaluations = VM runs; distinct_nontrivial = cases whose base run completed >= 2 instructions.")
-	run.Assume("the step driver (hooks/protocol/vm/zz_verif_c07.go) replicates Verify's preamble (every state item and argument charged 8 + length up front); cross-checked against vm.Verify (gas left and error class) on verify_crosschecks runs, at least once per program; in F5 every run is cross-checked and a disagreement is a violation (Verify's result is held against the stepped, monitored run), elsewhere it aborts the check as an infrastructure error")
+	run.Assume("the step driver (hooks/protocol/vm/zz_verif_c07.go) replicates Verify's preamble (every state item and argument charged 8 + length up front); cross-checked against vm.Verify (gas left and error class) on verify_crosschecks runs, at least once per program; in F5 every run is cross-checked and a disagreement is a violation (Verify's result is held against the stepped, monitored run), elsewhere the first disagreement is reported once (verify-differs-from-monitored-run-outside-f5) unless F5 already explains it")
 	run.Assume("child VMs are not stepped individually: their gas accounting is observed through the parent's CHECKPREDICATE step (potential of the parent) and by running every child program as a top-level program")
 	run.Assume("a top-level CHECKPREDICATE with limit operand 0 hands the child all remaining gas, so behaviour legitimately depends on the limit; for those cases only the per-step and end-of-run bounds are asserted")
 	run.Assume("context: TxVersion absent (expansion opcodes execute as 1-gas NOPs), all introspection fields present, CheckOutput always true")
@@ -1363,7 +1363,10 @@ func main() {
 			explained = explained || strings.HasPrefix(k, "verify-")
 		}
 		if !explained {
-			ev.Fatal("%s", infra)
+			// the step driver is built from the repository's own step() and push functions; when vm.Verify, the
+			// entry point the statement is about, ends differently from that run, the bounds established on the
+			// monitored run do not hold for Verify (F5 reports the same disagreement under verify-differs-from-monitored-run)
+			run.Violation("verify-differs-from-monitored-run-outside-f5", infra, map[string]interface{}{"disagreement": infra})
 		}
 		run.Set("driver_disagreement_outside_f5", infra)
 	}
